@@ -66,6 +66,7 @@ type fnCtx struct {
 	oldWrites    map[string]bool
 	locWrites    map[string][]string
 	curLoopState *State
+	curLoop      *loopInfo
 	sliceBase    map[string]sliceBaseRec
 	locals       map[string]Val
 	localIsAddr  map[string]bool
@@ -696,7 +697,14 @@ func (fc *fnCtx) writeSet(blocks map[*ssa.BasicBlock]bool) (names map[string]boo
 						}
 					}
 				case *ssa.FieldAddr:
-					if fc.definedOutside(a.X, blocks) && !fc.isValueAddr(a.X) {
+					if ia, ok := a.X.(*ssa.IndexAddr); ok {
+						// a field of an element of a loop-invariant slice of structs
+						if _, isSlice := ia.X.Type().Underlying().(*types.Slice); isSlice && fc.definedOutside(ia.X, blocks) {
+							if v, ok := fc.vals[ia.X]; ok && v.T != "" {
+								locKey = App("sarr", v.T)
+							}
+						}
+					} else if fc.definedOutside(a.X, blocks) && !fc.isValueAddr(a.X) {
 						if v, ok := fc.vals[a.X]; ok && v.T != "" && v.Addr == nil {
 							st0 := a.X.Type().Underlying().(*types.Pointer).Elem()
 							if !isStruct(st0.Underlying().(*types.Struct).Field(a.Field).Type()) {
@@ -890,6 +898,11 @@ func (fc *fnCtx) loopHeader(li *loopInfo, st *State) {
 		for _, c := range spec.Invariants {
 			fc.oblige(st, kind+".init", fc.evalClause(env, c), b.Instrs[0].Pos(), clauseProps(c, fc.propsAll), c.Text)
 		}
+		fc.curLoop = li
+		for _, c := range spec.Entry {
+			fc.oblige(st, fmt.Sprintf("loop%d.entry", li.ord), fc.evalClause(env, c), b.Instrs[0].Pos(), clauseProps(c, fc.propsAll), c.Text)
+		}
+		fc.curLoop = nil
 	}
 	// 3. havoc
 	fc.curLoopState = st.clone()
@@ -978,6 +991,22 @@ func (fc *fnCtx) isRangeIndexPhi(phi *ssa.Phi) bool {
 		}
 	}
 	return false
+}
+
+// rangeSlice: the slice value a rangeindex loop iterates over (the operand of the len() the index is compared with).
+func (fc *fnCtx) rangeSlice(li *loopInfo) ssa.Value {
+	for _, ins := range li.header.Instrs {
+		if phi, ok := ins.(*ssa.Phi); ok && fc.isRangeIndexPhi(phi) {
+			if lv := fc.rangeLen(phi); lv != nil {
+				if call, ok := lv.(*ssa.Call); ok {
+					if b, ok := call.Call.Value.(*ssa.Builtin); ok && b.Name() == "len" {
+						return call.Call.Args[0]
+					}
+				}
+			}
+		}
+	}
+	return nil
 }
 
 // rangeLen finds the length value the range index is compared against.
@@ -1135,7 +1164,7 @@ func (fc *fnCtx) doReturn(ins *ssa.Return, st *State) {
 	for _, c := range fc.con.Ensures {
 		fc.oblige(st, "post", fc.evalClause(env, c), ins.Pos(), clauseProps(c, fc.propsAll), c.Text)
 	}
-	if fc.con.HasAssign {
+	if fc.con.HasAssign && !fc.con.TrustedFrame {
 		fc.checkAssigns(st, ins.Pos())
 	}
 	if fc.con.NoReturn {
